@@ -5,10 +5,6 @@ From KV Require Import Base BaseProofs Wire TextLex.
 Import ListNotations.
 Open Scope Z_scope.
 
-(** a call returned normally: a value or an error, no panic, fuel sufficed *)
-Definition returns {A} (r : res A) : Prop :=
-  match r with Ok _ | Err => True | Panic | OutOfFuel => False end.
-
 Lemma returns_bind {A B} (r : res A) (f : A -> res B) :
   returns r -> (forall a, r = Ok a -> returns (f a)) -> returns (bind r f).
 Proof. destruct r; cbn; intros H Hf; auto. Qed.
@@ -747,4 +743,24 @@ Proof.
   rewrite num_fixed2 by lia. cbv beta iota zeta.
   replace ((m <? 1) || (12 <? m) || (d <? 1) || (days_in_month y m <? d) || (23 <? hh) || (59 <? mi) || (59 <? ss)) with false by lia.
   change ((90 =? 90) && true) with true. cbv iota. rewrite Hinv. f_equal. lia.
+Qed.
+
+(** an RFC 3339 instant of the years 1..9999 starts with digits: never taken for the "0x" form *)
+Lemma fmt_rfc3339_no_prefix t : date_ok t = true -> has_prefix s_0x (fmt_rfc3339 t) = false.
+Proof.
+  unfold date_ok, date_min, date_max. intros Ht. unfold fmt_rfc3339.
+  set (days := t / 86400).
+  assert (Hdays : -719162 <= days <= 2932896).
+  { subst days. split; [apply Z.div_le_lower_bound|apply Z.lt_succ_r, Z.div_lt_upper_bound]; lia. }
+  destruct (civil_from_days days) as [[y m] d] eqn:Ec.
+  destruct (civil_roundtrip days y m d Ec) as [_ [_ [_ Hy]]]. specialize (Hy Hdays).
+  replace (y <? 0) with false by lia.
+  destruct (pad_num_spec 4 y ltac:(lia) ltac:(cbn; lia)) as [Hl _].
+  assert (Hch : Forall (fun c => c <> 120) (pad_num 4 y)).
+  { unfold pad_num. apply pad_left_chars; [lia|]. apply digits_chars; [lia|lia|].
+    intros dd Hd. pose proof (digit_char_dec dd Hd). lia. }
+  destruct (pad_num 4 y) as [|a [|b r]]; unfold len in Hl; cbn [List.length] in Hl; try lia.
+  inversion Hch as [|? ? _ H2]; inversion H2 as [|? ? Hb _]; subst.
+  unfold s_0x. cbn [app has_prefix]. replace (120 =? b) with false by lia.
+  destruct (48 =? a); reflexivity.
 Qed.
